@@ -75,6 +75,8 @@
 #include "upipe-modules/upipe_blit.h"
 #include "upipe-modules/upipe_videocont.h"
 #include "upipe-modules/upipe_audiocont.h"
+#include "upipe-modules/upipe_audio_split.h"
+#include "upipe-modules/upipe_audio_merge.h"
 #include "upipe-modules/upipe_multicat_probe.h"
 #include "upipe/ubuf_pic_mem.h"
 #include "upipe/ubuf_sound_mem.h"
@@ -190,7 +192,7 @@ struct side {
     struct ubuf *held[MAXSEQ]; /* references kept on shared segments */
     int nheld;
     struct ubuf_mgr *pic_mgr, *sound_mgr; /* picture / sound rows: the upstream's buffer managers (created on first use) */
-    struct ubuf_mgr *pic444_mgr, *f32_mgr; /* further upstream managers: planar 4:4:4 pictures, planar f32 sound */
+    struct ubuf_mgr *pic444_mgr, *f32_mgr, *mono_mgr; /* further upstream managers: planar 4:4:4 pictures, interleaved f32 stereo, f32 mono */
     /* per record of the sinks' log: size of the picture delivered / hsize and vsize of the definition offered (-1: none) */
     int rec_w[PX_MAXS], rec_h[PX_MAXS];
 };
@@ -1327,6 +1329,66 @@ static struct uref *mk_f32(struct side *s, int seq, int sh, struct ubuf **held_p
     return u;
 }
 
+/* audio_split: interleaved s32 stereo in (mk_sound); the output subpipes are allocated with the channel they extract (left / right, one plane) */
+ALLOC_VOID(audio_split, upipe_audio_split_mgr_alloc)
+static struct upipe *sub_audio_split(struct side *s, int k)
+{
+    struct uref *f = uref_sound_flow_alloc_def(s->fx.uref_mgr, "", 1, 0);
+    assert(f);
+    ubase_assert(uref_flow_set_id(f, 10 + k));
+    ubase_assert(uref_sound_flow_add_plane(f, k ? "r" : "l"));
+    ubase_assert(uref_audio_split_set_bitfield(f, k ? 0x2 : 0x1));
+    struct upipe *sub = upipe_flow_alloc_sub(s->pipe, px_probe(&s->fx), f);
+    uref_free(f);
+    return sub;
+}
+/* audio_merge is allocated with its output definition (planar f32 stereo); its subpipes are the inputs, one planar channel each (F2 announces
+ * a latency, which the pipe copies to its output definition) */
+static struct upipe *alloc_audio_merge(struct side *s)
+{
+    struct uref *f = uref_sound_flow_alloc_def(s->fx.uref_mgr, "f32.", 2, 4);
+    assert(f);
+    ubase_assert(uref_flow_set_id(f, 9));
+    ubase_assert(uref_sound_flow_add_plane(f, "l"));
+    ubase_assert(uref_sound_flow_add_plane(f, "r"));
+    ubase_assert(uref_sound_flow_set_rate(f, 48000));
+    struct upipe *p = upipe_flow_alloc(upipe_audio_merge_mgr_alloc(), px_probe(&s->fx), f);
+    uref_free(f);
+    return p;
+}
+static void fix_mono(struct uref *f, int id)
+{
+    ubase_assert(uref_sound_flow_set_channels(f, 1));
+    ubase_assert(uref_sound_flow_set_sample_size(f, 4));
+    ubase_assert(uref_sound_flow_set_planes(f, 0));
+    ubase_assert(uref_sound_flow_add_plane(f, "l"));
+    ubase_assert(uref_sound_flow_set_rate(f, 48000));
+    if (id == 2)
+        ubase_assert(uref_clock_set_latency(f, 50));
+}
+static struct uref *mk_mono(struct side *s, int seq, int sh, struct ubuf **held_p)
+{
+    static const int n[NSHAPES] = {2, 5, 1, 3, 4};
+    if (s->mono_mgr == NULL) {
+        s->mono_mgr = ubuf_sound_mem_mgr_alloc(g_pool, g_pool, s->fx.umem_mgr, 4, 0);
+        assert(s->mono_mgr);
+        ubase_assert(ubuf_sound_mem_mgr_add_plane(s->mono_mgr, "l"));
+    }
+    struct uref *u = uref_sound_alloc(s->fx.uref_mgr, s->mono_mgr, n[sh]);
+    assert(u);
+    float *w;
+    ubase_assert(uref_sound_write_float(u, 0, -1, &w, 1));
+    for (int i = 0; i < n[sh]; i++)
+        w[i] = (float)(seq * 16 + i + 1) / 256;
+    ubase_assert(uref_sound_unmap(u, 0, -1, 1));
+    cat_stamp(u, seq);
+    if (held_p != NULL) {
+        *held_p = ubuf_dup(u->ubuf);
+        assert(*held_p);
+    }
+    return u;
+}
+
 /* ------------------------------------------------------------------ */
 /* expected transformations (documented changes), written independently   */
 /* ------------------------------------------------------------------ */
@@ -1522,8 +1584,7 @@ static const struct row rows[] = {
      .out_def_prefix = "block."},
     {.name = "aes_decrypt_clear", .kind = K_RECHUNK, .alloc = alloc_aes_decrypt, .bad_def = "pic.", .out_def_prefix = "block."},
     {.name = "block_to_sound", .kind = K_RECHUNK, .alloc = alloc_block_to_sound, .bad_def = "pic.", .in_scale = 16, .out_def_prefix = "sound.s32.", .out_not_block = true},
-    {.name = "dtsdi", .kind = K_RECHUNK, .alloc = alloc_dtsdi, .in_tab = tab_dtsdi,
-     .nopts = 1, .opt = {{"output_size", 3, osz_set, osz_get, osz_vs, NULL}}},
+    {.name = "dtsdi", .kind = K_RECHUNK, .alloc = alloc_dtsdi, .in_tab = tab_dtsdi}, /* (its output size is derived from the file header: not an option) */
     {.name = "rtp_pcm_unpack", .kind = K_RECHUNK, .alloc = alloc_rtp_pcm_unpack, .bad_def = "block.", .in_def = "block.s24be.sound.", .flow_fix = fix_pcm,
      .in_scale = 12, .out_def_prefix = "sound.s32.", .out_not_block = true},
     {.name = "m3u_reader", .kind = K_RECHUNK, .alloc = alloc_m3u_reader, .bad_def = "pic.", .in_tab = tab_m3u, .out_def_prefix = "block.m3u."},
@@ -1570,7 +1631,9 @@ static const struct row rows[] = {
     {.name = "trickplay", .kind = K_RECHUNK, .alloc = alloc_trickp, .has_subs = true, .sub_io = true,
      .nopts = 1, .opt = {{"rate", 4, trick_set, trick_get, trick_vs, "1/1"}}},
     {.name = "play", .kind = K_RECHUNK, .alloc = alloc_play, .has_subs = true, .sub_io = true},
-    {.name = "stream_switcher", .kind = K_RECHUNK, .alloc = alloc_stream_switcher, .has_subs = true, .sub_io = true,
+    {.name = "stream_switcher", .kind = K_RECHUNK, .alloc = alloc_stream_switcher, .has_subs = true, .sub_io = true},
+    /* (the same pipe with the option of its input subpipe: a row of its own, one operation shallower, so that the row above keeps its depth) */
+    {.name = "stream_switcher_ml", .kind = K_RECHUNK, .alloc = alloc_stream_switcher, .has_subs = true, .sub_io = true,
      .nopts = 1, .opt = {{"sub0.max_length", 3, subml_set, subml_get, ml_vs, NULL, .on_sub = true}}},
     /* pipes with a reference input (main pipe: definition at allocation, buffers from the upstream's pump) and input subpipes */
     {.name = "blit", .kind = K_RECHUNK, .alloc = alloc_blit, .has_subs = true, .sub_io = true, .pump_to_main = true, .uses_pumps = true, .bad_def = "block.",
@@ -1588,6 +1651,10 @@ static const struct row rows[] = {
      .in_shapes = 1 << 0 | 1 << 1 | 1 << 4, .nopts = 3,
      .opt = {{"input", 3, acname_set, acname_get, cont_name_vs, "null"}, {"latency", 2, aclat_set, aclat_get, cont_u64_vs, "0"},
              {"crossblend", 2, acxb_set, acxb_get, cont_u64_vs, "5400000"}}},
+    {.name = "audio_merge", .kind = K_RECHUNK, .alloc = alloc_audio_merge, .has_subs = true, .sub_io = true, .bad_def = "block.", .in_def = "sound.f32.",
+     .flow_fix = fix_mono, .mk_input = mk_mono, .out_def_prefix = "sound.f32.", .out_not_block = true},
+    {.name = "audio_split", .kind = K_RECHUNK, .alloc = alloc_audio_split, .bad_def = "block.", .in_def = "sound.s32.", .flow_fix = fix_sound, .mk_input = mk_sound,
+     .out_def_prefix = "sound.s32.", .out_not_block = true, .has_subs = true, .sub_alloc = sub_audio_split},
     {.name = "ts_psi_join", .kind = K_RECHUNK, .alloc = alloc_ts_psi_join, .has_subs = true, .sub_io = true, .bad_def = "block.", .in_def = "block.mpegtspsi.",
      .in_tab = tab_psi, .out_def_prefix = "block.mpegtspsi."},
     {.name = "ts_psi_split", .kind = K_RECHUNK, .alloc = alloc_ts_psi_split, .bad_def = "block.", .in_def = "block.mpegtspsi.", .out_def_prefix = "block.mpegtspsi.",
@@ -2547,15 +2614,15 @@ static int final_check(void *vst)
                     ubuf_mgr_release(aux[i]);
                 }
             sides[k]->pic_mgr = sides[k]->sound_mgr = NULL;
-            struct ubuf_mgr *aux2[2] = {sides[k]->pic444_mgr, sides[k]->f32_mgr};
-            for (int i = 0; i < 2; i++)
+            struct ubuf_mgr *aux2[3] = {sides[k]->pic444_mgr, sides[k]->f32_mgr, sides[k]->mono_mgr};
+            for (int i = 0; i < 3; i++)
                 if (aux2[i] != NULL) {
                     if (aux2[i]->refcount && uatomic_load(&aux2[i]->refcount->refcount) != 1 && (g_oracle & O_C01))
-                        FAIL(st, "end:upstream-ubuf-mgr-refs", "the upstream's %s manager has %u references after teardown (expected 1)", i ? "f32 sound" : "4:4:4 picture",
+                        FAIL(st, "end:upstream-ubuf-mgr-refs", "the upstream's %s manager has %u references after teardown (expected 1)", i == 0 ? "4:4:4 picture" : i == 1 ? "f32 stereo" : "f32 mono",
                              (unsigned)uatomic_load(&aux2[i]->refcount->refcount));
                     ubuf_mgr_release(aux2[i]);
                 }
-            sides[k]->pic444_mgr = sides[k]->f32_mgr = NULL;
+            sides[k]->pic444_mgr = sides[k]->f32_mgr = sides[k]->mono_mgr = NULL;
             urequest_clean(&sides[k]->up_req);
         }
     char sg[96] = "";
